@@ -147,3 +147,109 @@ Section Strings.
     exists f'. refine (conj E (conj I (conj N _))). now apply iso_f_pre.
   Qed.
 End Strings.
+
+(* ------------------------------------------------------------------ *)
+(* Audit F4: the inverse-pair hypothesis only for the dicts that occur.
+   [inverse_on] quantifies over every association list with the entries of the
+   node's dict; a decoder that looks the structural dict up in a table (as the
+   decoders of the correspondence do) cannot satisfy that.  The dicts to_dict
+   really produces for a node are its head dict, with or without a "children"
+   entry appended: [inverse_on_c] asks for those only – a weaker hypothesis, so
+   a stronger round-trip theorem. *)
+Definition own_dicts (D0 D : jdict) : Prop := D = D0 \/ exists js, D = dset k_children (JList js) D0.
+
+Definition inverse_on_c (sm : smapper) (dd : dmapper) (i : info) : Prop :=
+  forall D, own_dicts (head_dict sm i) D ->
+  exists i' D', dd D = inl (i', D') /\ same_data i i' /\
+                dget k_data_id D' = opt_id i /\ dget k_node_id D' = None.
+
+Lemma own_dicts_entries D0 D : own_dicts D0 D -> own_entries D0 D.
+Proof.
+  intros [->|(js & ->)] k Hk; [reflexivity|]. now apply dget_dset_other.
+Qed.
+
+Lemma inverse_on_weaken sm dd i : inverse_on sm dd i -> inverse_on_c sm dd i.
+Proof. intros H D HD. apply H. now apply own_dicts_entries. Qed.
+
+Lemma to_dict_kids_c sm id i ch : sm_kids sm ->
+  exists D, to_dict sm (T id i ch) = JDict D /\ kids_of D = map (to_dict sm) ch /\ own_dicts (head_dict sm i) D.
+Proof.
+  intros Hk. rewrite to_dict_unfold.
+  assert (A3 : dget k_children (head_dict sm i) = None).
+  { unfold head_dict. apply Hk. destruct (has_custom_did i); [|reflexivity].
+    rewrite dget_dset_other by exact k_ch_neq_id. reflexivity. }
+  destruct ch as [|c cs].
+  - exists (head_dict sm i). refine (conj eq_refl (conj _ _)).
+    + unfold kids_of. now rewrite A3.
+    + now left.
+  - eexists. split; [reflexivity|]. split.
+    + unfold kids_of. now rewrite dget_dset_same.
+    + right. eexists. reflexivity.
+Qed.
+
+Section RoundTripC.
+  Variables (sm : smapper) (dd : dmapper).
+  Hypothesis Hk : sm_kids sm.
+
+  Definition rt_goal_c (t : rt) : Prop :=
+    sibuniq t -> allinfo (inverse_on_c sm dd) t ->
+    forall seen used, ~ In (rdid t) seen ->
+    exists t', fd_item dd default_did (parse (to_dict sm t)) seen used = inl t' /\ iso t t' /\
+               nids dd (parse (to_dict sm t)) = [].
+
+  Lemma rt_loop_c : forall ch, Forall rt_goal_c ch ->
+    NoDup (map rdid ch) -> Forall sibuniq ch -> Forall (allinfo (inverse_on_c sm dd)) ch ->
+    forall seen used, (forall x, In x (map rdid ch) -> ~ In x seen) ->
+    exists ch', fd_loop dd default_did (map parse (map (to_dict sm) ch)) seen used = inl ch' /\ Forall2 iso ch ch' /\
+                flat_map (nids dd) (map parse (map (to_dict sm) ch)) = [].
+  Proof.
+    induction ch as [|x xs IH]; intros HP ND SU AI seen used Hs.
+    - exists []. split; [reflexivity|split; [constructor|reflexivity]].
+    - inversion HP as [|x0 xs0 Px Pxs]; subst. inversion ND as [|d0 l0 Nin ND']; subst.
+      inversion SU as [|x1 xs1 Sx Sxs]; subst. inversion AI as [|x2 xs2 Ax Axs]; subst.
+      destruct (Px Sx Ax seen used) as (t' & E1 & I1 & N1).
+      { apply Hs. now left. }
+      destruct (IH Pxs ND' Sxs Axs (seen ++ [rdid x]) used) as (ts & E2 & I2 & N2).
+      { intros y Hy Hin. apply in_app_or in Hin as [Hin|[<-|[]]].
+        - apply (Hs y); [now right|assumption].
+        - contradiction. }
+      exists (t' :: ts). split; [|split; [constructor; assumption|]].
+      + cbn [map fd_loop]. rewrite E1, N1, app_nil_r. rewrite (iso_rdid _ _ I1). now rewrite E2.
+      + cbn [map flat_map]. now rewrite N1, N2.
+  Qed.
+
+  Lemma rt_item_c : forall t, rt_goal_c t.
+  Proof.
+    induction t as [id i ch IH] using rt_ind'. intros SU AI seen used Nin.
+    inversion SU as [id0 i0 ch0 ND SUch]; subst. inversion AI as [id1 i1 ch1 Hinv AIch]; subst.
+    destruct (to_dict_kids_c sm id i ch Hk) as (D & ED & D3 & D4).
+    destruct (Hinv D D4) as (i' & D' & Ei & SD & Hid & Hnid).
+    assert (Edid : did_for default_did (dget k_data_id D') i' = inl (i_did i)).
+    { rewrite Hid. unfold opt_id. destruct SD as (_ & Eh & _).
+      destruct (Z.eqb (i_hash i) (-1)) eqn:C1; [apply did_for_of_did|].
+      destruct (did_eqb (i_did i) (DInt (i_hash i))) eqn:C2; [|apply did_for_of_did].
+      apply did_eqb_eq in C2. cbn [did_for]. unfold default_did, unhashable. rewrite Eh, C1, C2. reflexivity. }
+    change (rdid (T id i ch)) with (i_did i) in Nin.
+    destruct (rt_loop_c ch IH ND SUch AIch [] (used ++ opt_list None)) as (ch' & E & I & N); [intros x _ []|].
+    rewrite ED, parse_dict.
+    rewrite (fd_item_PT_intro dd default_did D _ seen used i' D' (i_did i) None Ei Edid);
+      [|unfold nid_check; rewrite Hnid; reflexivity|apply existsb_did_false; exact Nin].
+    rewrite D3, E. eexists. split; [reflexivity|]. split.
+    - constructor; try reflexivity; try assumption.
+    - cbn [nids]. rewrite Ei, Hnid. cbn [nid_of app]. exact N.
+  Qed.
+End RoundTripC.
+
+Theorem roundtrip_c sm dd next f :
+  sm_json sm -> sm_kids sm -> sibuniq_f f -> Forall (allinfo (inverse_on_c sm dd)) f ->
+  exists f', tree_from_dict dd next (map json_rt (to_dict_list sm f)) = inl f' /\
+             Forall2 iso f f' /\ ids f' = seq (S next) (size_f f).
+Proof.
+  intros Hj Hk [ND SU] AI. rewrite (to_dict_list_json sm Hj).
+  destruct (rt_loop_c sm dd f (proj2 (Forall_forall _ _) (fun t _ => rt_item_c sm dd Hk t)) ND SU AI [] [])
+    as (f0 & E & I & _); [intros x _ []|].
+  unfold tree_from_dict, from_dict, to_dict_list. rewrite E.
+  destruct (renum_forest_ok f0 next) as (B2 & _ & B4 & _).
+  eexists. split; [reflexivity|]. split; [now apply B4|].
+  rewrite B2. now rewrite (iso_f_size _ _ I).
+Qed.
